@@ -6,19 +6,37 @@ COQ_TARGETS = ["Props/Properties_C02.vo", "Extract/ExtractCore.vo"]
 PROPS_FILES = ["Props/Properties_C02.v"]
 RUNS = [rc.READ_RUN]
 EXPLANATION = ("Theorems: exact accounting of every readPtr against the traversal budget (a refusal zeroes it), total "
-               "handed out <= T for any op list and for the walker; depth: level(handle) + depthLimit(handle) <= D for any "
+               "handed out <= T for any op list and for the walker; per incarnation of a reused message (Message.Reset / "
+               "Decoder.ReuseBuffer re-arm exactly initReadLimit's value) and per budget epoch when the application calls "
+               "ResetReadLimit / Unread; the budget is never negative; depth: level(handle) + depthLimit(handle) <= D for any "
                "mix of Struct.Ptr / PointerList.At / List.Struct (saturating decrement), so nothing is dereferenced more "
                "than D levels below the root; the walker with fuel D+1 never runs out of fuel and makes at most T/8+1 "
-               "successful dereferences also on cyclic graphs; canRead's CAS loop for any number of threads under every "
-               "interleaving keeps granted <= T and terminates. Tie: the remaining budget (hook VerifReadLimit) and the "
-               "depthLimit of every pointer (hook VerifInfo) are compared with the model after each op; concurrent "
-               "readers are checked against the invariant the theorem states.")
+               "successful dereferences also on cyclic graphs; Equal (fuel D+2), Canonicalize and deep copy (fuel 2D+1) never "
+               "run out of fuel, never increase the budget, hand out at most what they consume, and append at most "
+               "5 x (size + consumed) + const bytes to their destination; canRead's CAS loop for any number of threads under "
+               "every interleaving keeps granted <= T and terminates (schedule length <= measure). Tie: the remaining budget "
+               "(hook VerifReadLimit) and the depthLimit of every pointer (hook VerifInfo) are compared with the model after "
+               "each op, including reset / setlimit / unread; concurrent readers are checked against the invariant the "
+               "theorem states.")
 TRUSTED = rc.CORE_TRUSTED
 MODELLED = rc.CORE_MODELLED
-ASSUMPTIONS = ["segments <= 2^32-8 bytes; 64-bit platform"]
-LEVEL_TEXT = ("Proof (Coq) of the traversal and depth bounds over all messages, limits, op lists and CAS interleavings; "
-              "differential run compares budget and depth values exactly.")
-LEVEL_NOTE = "Trusted: Coq kernel, extraction, harness, hooks VerifReadLimit/VerifInfo (read-only). Go stack growth is not modelled."
+ASSUMPTIONS = ["64-bit platform; 0 <= T. 'segments <= 2^32-8 bytes' is needed only by the walker / consumer theorems and is "
+               "discharged for decoded messages by C01 (C01_unmarshal_msg_ok ...). Message.ResetReadLimit and Message.Unread are "
+               "application-controlled and RAISE the budget: they are modelled (OResetLimit, OUnread) and the bound is then per "
+               "budget epoch (C02_traversal_bound_epochs); 'total <= T' holds only for applications that do not call them"]
+LEVEL_TEXT = ("Proof (Coq) of the traversal and depth bounds over all messages, limits, op lists (with Reset / ResetReadLimit / "
+              "Unread: per incarnation / epoch) and CAS interleavings, and for the consumers Equal, Canonicalize and deep copy; "
+              "differential run compares budget and depth values exactly. NOT proved: the bounds for text.Marshal and "
+              "pogs.Extract (see note).")
+LEVEL_NOTE = ("Gap, in plain words: the property says 'every recursive consumer (deep copy, canonicalise, equality, text, "
+              "extraction)'. Equal, Canonicalize and deep copy have theorems over Go-faithful models; text.Marshal and pogs.Extract "
+              "have NO C02 theorem over the reader model (their own models in coq/Text, coq/Pogs are not composed with "
+              "Core/Reader.v; C19_extract_fuel_sufficient bounds pogs' recursion by the schema rank and the struct tree, not by "
+              "T and D): for them the generic walker (C02_walk_bounded) stands for the recursion and the C19 / C20 runs observe "
+              "the budget. 'Time bounded by T': the theorems bound successful dereferences (<= T/8+1), bytes handed out (<= T) "
+              "and recursion depth; the number of list-element visits and null-slot visits is not stated as a theorem (it follows "
+              "from 'every list element is charged >= 8 bytes' but is not proved). "
+              "Trusted: Coq kernel, extraction, harness, hooks VerifReadLimit/VerifInfo (read-only). Go stack growth is not modelled.")
 TECHNIQUE = "Coq proof (invariants over op lists and over all interleavings of a small-step CAS model) + differential run"
 DESIGN_REF = "DESIGN.md section 6, C02"
 
